@@ -61,6 +61,11 @@ class Context(object):
 
     def decide(self, cond):
         """branch on a symbolic condition"""
+        if _in_effect_free_if():
+            # `if <test>: pass  else: <bare expression>` in the code under test (e.g. an exception object that is
+            # built but never raised): both outcomes are observationally identical, so no fork and no path condition
+            self.dead_branches = getattr(self, 'dead_branches', 0) + 1
+            return True
         i = len(self.decisions)
         if i < len(self.prefix):
             taken = self.prefix[i]
@@ -90,6 +95,60 @@ class Context(object):
         # keep prefix aligned so that re-execution is deterministic
         self.prefix.append(taken)
         return taken
+
+
+_IF_CACHE = {}
+
+
+def _effect_free_ifs(filename):
+    """line ranges of the tests of `if` statements whose body and orelse cannot have any effect"""
+    import ast
+    hit = _IF_CACHE.get(filename)
+    if hit is not None:
+        return hit
+    spans = []
+    try:
+        tree = ast.parse(open(filename).read())
+    except Exception:
+        tree = None
+
+    def inert(stmts):
+        for st in stmts:
+            if isinstance(st, ast.Pass):
+                continue
+            if isinstance(st, ast.Expr):
+                v = st.value
+                if isinstance(v, ast.Constant):
+                    continue
+                if (isinstance(v, ast.Call) and isinstance(v.func, ast.Name)
+                        and v.func.id in ('ValueError', 'TypeError', 'RuntimeError', 'Exception', 'AssertionError')
+                        and all(isinstance(a, ast.Constant) for a in v.args) and not v.keywords):
+                    continue
+            return False
+        return True
+    if tree is not None:
+        for node in ast.walk(tree):
+            if isinstance(node, ast.If) and inert(node.body) and inert(node.orelse):
+                spans.append((node.test.lineno, node.test.end_lineno))
+    _IF_CACHE[filename] = spans
+    return spans
+
+
+def _in_effect_free_if():
+    import sys
+    f = sys._getframe(2)
+    depth = 0
+    while f is not None and depth < 12:
+        fn = f.f_code.co_filename
+        if fn.startswith("/repo/src"):
+            ln = f.f_lineno
+            for a, b in _effect_free_ifs(fn):
+                if a <= ln <= b:
+                    return True
+            return False
+        f = f.f_back
+        depth += 1
+    return False
 
 
 _CTX = [None]
